@@ -141,11 +141,21 @@ def judge(args):
                             k, v = kv.split("=")
                             content[(h, k)] = v
             big = 1 << 62
+            e4_hits = []
             for key, ops in hist.items():
                 ops = ops + [Op(big, big + 1, "r", content.get(key), 0)]
                 if len(ops) > 400:
                     continue
                 if not linearizable(ops):
+                    # known finding E4: a version upgrade (flush / compaction on a worker thread) bumps the visible seqno past a
+                    # batch that is still applying its items, so a concurrent read can see that batch half applied (and, when
+                    # the batch writes the key twice, momentarily neither version).  Reads that overlap a multi-item batch on
+                    # this key are exactly those: if the history without them is linearizable, this is E4 and nothing else.
+                    batch_iv = [(o_.call, o_.ret) for o_ in ops if o_.kind == "w" and o_.line and lines[o_.line - 1].split()[2] == "batch"]
+                    calm = [o_ for o_ in ops if not (o_.kind == "r" and any(o_.call <= b_ret and b_call <= o_.ret for (b_call, b_ret) in batch_iv))]
+                    if rn["workers"] >= 1 and len(calm) < len(ops) and linearizable(calm):
+                        e4_hits.append(key)
+                        continue
                     # shortest non-linearizable prefix (by call time), shown with call/return times
                     so = sorted(ops, key=lambda o_: o_.call)
                     win = so
@@ -162,7 +172,7 @@ def judge(args):
             o2, _, _ = run_fjv("open plain\ndump\n", dbdir=db)
             if not problems and o2.get(2) != dump:
                 problems.append("content after reopen differs from the final content: %s vs %s" % (o2.get(2), dump))
-        return dict(run=rn, problems=problems, ops=nops, keys=len(hist))
+        return dict(run=rn, problems=problems, ops=nops, keys=len(hist), e4=len(locals().get("e4_hits", [])))
     finally:
         shutil.rmtree(wd, ignore_errors=True)
 
@@ -248,6 +258,13 @@ def run(rep, tier, seed, build):
     res, unconf2 = pmap_confirm(judge, [(seed * 2147483647 + i, tier) for i in range(n)],
                                 lambda x: bool(x["problems"]) and ("never returned" in x["problems"][0] or "timing" in x["problems"][0]), workers=4)
     bad = [x for x in res if x["problems"]]
+    if any(x.get("e4") for x in res):
+        from common import known_switch
+        f4 = known_switch("C14", "d_visible_bump")
+        if f4:
+            rep.known_finding("d_visible_bump (%s): a read overlapping a multi-item batch saw it half applied; %s" % (f4["id"], f4["what"][:200]))
+        else:
+            rep.violation("# C14: reads overlapping a multi-item batch see it half applied (%d key histories)\n" % sum(x["e4"] for x in res))
     for x in bad[:3]:
         rep.violation("# C14: %s\n# run: %d threads x %d ops, %d workers, memtable %d bytes\n%s"
                       % (x["problems"][0], x["run"]["threads"], x["run"]["per"], x["run"]["workers"], x["run"]["mt"], x["run"]["prog"]))
